@@ -26,9 +26,10 @@ done
 cd /verif || exit 2
 [ -z "$(git status --porcelain)" ] || { echo "/verif not clean"; exit 2; }
 git merge --no-ff --no-commit wp-$n >/tmp/wp/merge.$n.log 2>&1
-conf=$(git diff --name-only --diff-filter=U | grep -v -e '^MANIFEST.json$' -e '^known_findings.json$' -e '^lean/Genshi.lean$')
+conf=$(git diff --name-only --diff-filter=U | grep -v -e '^MANIFEST.json$' -e '^known_findings.json$' -e '^lean/Genshi.lean$' -e '^evidence/')
 if [ -n "$conf" ]; then echo "MERGE CONFLICTS:"; echo "$conf"; exit 1; fi
-for f in MANIFEST.json known_findings.json lean/Genshi.lean; do git checkout --ours $f 2>/dev/null; done
+for f in MANIFEST.json known_findings.json lean/Genshi.lean $(git diff --name-only --diff-filter=U | grep '^evidence/'); do git checkout --ours $f 2>/dev/null; done
+tools/fixshas.py
 tools/mkmanifest.py; tools/mkfindings.py
 git add -A; git commit -qm "Merge work package $n"
 echo "merged wp-$n"
